@@ -9,6 +9,8 @@ func (x *extractor) genSkeletons() string {
 	x.genSkeletonsDisplay(&b)
 	b.WriteString("\n")
 	x.genSkeletonsConc(&b)
+	b.WriteString("\n")
+	x.genGuards(&b)
 	b.WriteString("\nend Ntrip.Gen\n")
 	return b.String()
 }
